@@ -15,6 +15,7 @@ import (
 	"strconv"
 	"strings"
 	"sync"
+	"sync/atomic"
 	"time"
 )
 
@@ -45,14 +46,36 @@ func hash64(s string) uint64 {
 // SafeRun runs the engine and converts an escaped Go panic into a harness failure (exit 2): engines are expected to
 // recover whatever goja may legitimately or illegitimately panic with and to judge it themselves.
 func SafeRun(e Engine, t *Tape, want bool) (res *Result) {
-	defer func() {
-		if x := recover(); x != nil {
-			fmt.Fprintf(os.Stderr, "HARNESS-PANIC: %v\n%s\n", x, debug.Stack())
-			os.Exit(2)
-		}
+	// The run executes on its own goroutine so that an engine can abandon it with AbortRun() when the code under test
+	// keeps executing after its step budget is long exceeded (e.g. because it swallows the panic raised by the tick hook).
+	done := make(chan *Result, 1)
+	runStarted.Store(time.Now().UnixNano())
+	go func() {
+		defer func() {
+			select {
+			case done <- nil: // reached without a result: the goroutine is exiting through AbortRun()
+			default:
+			}
+		}()
+		defer func() {
+			if x := recover(); x != nil {
+				fmt.Fprintf(os.Stderr, "HARNESS-PANIC: %v\n%s\n", x, debug.Stack())
+				os.Exit(2)
+			}
+		}()
+		done <- e.Run(t, want)
 	}()
-	return e.Run(t, want)
+	res = <-done
+	runStarted.Store(0)
+	if res == nil {
+		res = &Result{}
+		res.Fail("nontermination", "nontermination run-aborted", "the run had to be abandoned: the code under test kept executing VM instructions after twice its instruction budget (the fault-free reference finished within budget)", "")
+	}
+	return res
 }
+
+// AbortRun abandons the current simulated run (see SafeRun). Deferred functions of the goroutine run, recover() sees nothing.
+func AbortRun() { runtime.Goexit() }
 
 func replayRule(e Engine, w, s []uint32) string {
 	r := SafeRun(e, NewReplayTape(w, s), false)
@@ -62,7 +85,36 @@ func replayRule(e Engine, w, s []uint32) string {
 	return r.Violation.Rule
 }
 
+// hang watchdog: a single simulated run takes milliseconds; if one does not come back within hangLimit of wall-clock
+// time the code under test is stuck in a loop that executes no VM instruction (the engines bound instruction counts
+// themselves). The process reports it and exits; the parent attributes it to the announced run and re-executes that
+// run in a fresh process to confirm.
+var runStarted atomic.Int64
+
+func hangLimit() time.Duration {
+	if v := os.Getenv("VERIF_HANG_S"); v != "" {
+		if n, err := strconv.Atoi(v); err == nil {
+			return time.Duration(n) * time.Second
+		}
+	}
+	return 90 * time.Second
+}
+
+func startHangWatchdog() {
+	lim := hangLimit()
+	go func() {
+		for {
+			time.Sleep(time.Second)
+			if s := runStarted.Load(); s != 0 && time.Since(time.Unix(0, s)) > lim {
+				fmt.Fprintf(os.Stderr, "HANG-WATCHDOG: a simulated run did not return within %v\n", lim)
+				os.Exit(3)
+			}
+		}
+	}()
+}
+
 func WorkerMain(spec *Spec, tier string, seed uint64, wid, nw int, total uint64, deadline time.Time, wantDigests bool) int {
+	startHangWatchdog()
 	out := bufio.NewWriterSize(os.Stdout, 1<<16)
 	enc := json.NewEncoder(out)
 	emit := func(m *wmsg) { enc.Encode(m); out.Flush() }
@@ -119,6 +171,10 @@ func WorkerMain(spec *Spec, tier string, seed uint64, wid, nw int, total uint64,
 		// minimise
 		w, s := tape.Recorded()
 		rule := res.Violation.Rule
+		// announce the unminimised violation first: if minimisation kills this process (a candidate tape may hang the
+		// code under test) the parent still has the violation
+		emit(&wmsg{T: "viol0", Idx: idx, Replay: &ReplayFile{Property: spec.Property, Engine: spec.EngineName, Tier: tier, Seed: seed, RunIndex: idx,
+			W: w, S: s, OrigLen: [2]int{len(w), len(s)}, Violation: res.Violation, TraceDigest: res.Digest, Note: "not minimised: the worker died while minimising"}})
 		bw, bs, n := Shrink(w, s, rule, shrinkBudget, shrinkRuns, func(cw, cs []uint32) string { return replayRule(eng, cw, cs) })
 		fin := SafeRun(eng, NewReplayTape(bw, bs), true)
 		if fin.Violation == nil || fin.Violation.Rule != rule {
@@ -159,6 +215,8 @@ type Evidence struct {
 
 func fatalKind(stderr string) string {
 	switch {
+	case strings.Contains(stderr, "HANG-WATCHDOG:"):
+		return "fatal:hang"
 	case strings.Contains(stderr, "WARNING: DATA RACE"):
 		return "fatal:data-race"
 	case strings.Contains(stderr, "fatal error: concurrent map"):
@@ -249,6 +307,7 @@ func ExecMain(spec *Spec, tier string) int {
 		fmt.Fprintln(os.Stderr, err)
 		return 2
 	}
+	startHangWatchdog()
 	res := SafeRun(spec.New(tier), NewReplayTape(rf.W, rf.S), true)
 	b, _ := json.Marshal(map[string]interface{}{"violation": res.Violation, "digest": res.Digest})
 	os.Stdout.Write(b)
@@ -326,6 +385,7 @@ func RunMain(prop, tier string, seed uint64) int {
 	type wres struct {
 		sum     *wmsg
 		viol    *ReplayFile
+		viol0   *ReplayFile
 		known   []string
 		lastIdx uint64
 		started bool
@@ -364,8 +424,12 @@ func RunMain(prop, tier string, seed uint64) int {
 					r.lastIdx, r.started = m.Idx, true
 				case "viol":
 					r.viol = m.Replay
+					r.viol0 = nil
+				case "viol0":
+					r.viol0 = m.Replay
 				case "known":
 					r.known = append(r.known, m.Known)
+					r.viol0 = nil
 				case "sum":
 					r.sum = m
 				}
@@ -427,6 +491,15 @@ func RunMain(prop, tier string, seed uint64) int {
 		if r.viol != nil {
 			viols = append(viols, r.viol)
 		}
+		if r.viol == nil && r.viol0 != nil && (r.sum == nil || (r.exit != 0 && r.exit != 1)) {
+			// the worker died while minimising a violation it had already found
+			if kf, _ := LoadKnown(); kf != nil && kf.Match(prop, r.viol0.Violation) != nil {
+				knownCount[kf.Match(prop, r.viol0.Violation).What]++
+			} else {
+				viols = append(viols, r.viol0)
+			}
+			continue
+		}
 		if r.sum == nil || (r.exit != 0 && r.exit != 1) {
 			// the worker died: attribute a Go fatal diagnostic to the run it had announced
 			k := fatalKind(r.stderr)
@@ -457,7 +530,11 @@ func RunMain(prop, tier string, seed uint64) int {
 			infra = true
 			continue
 		}
-		bw, bs, n := Shrink(w, s, fr.kind, 45*time.Second, 120, func(cw, cs []uint32) string {
+		budget := 45 * time.Second
+		if fr.kind == "fatal:hang" {
+			budget = 0 // every re-execution costs the hang limit
+		}
+		bw, bs, n := Shrink(w, s, fr.kind, budget, 120, func(cw, cs []uint32) string {
 			rl, _, _, _, _ := execTape(prop, tier, cw, cs)
 			return rl
 		})
